@@ -55,15 +55,17 @@ func shape(c *Call) string {
 }
 
 type Op struct {
-	Op     string   `json:"op"` // reconcile | refresh | kubelet | edit | worker
-	Faults []Fault  `json:"faults,omitempty"`
-	What   string   `json:"what,omitempty"`  // refresh: all|set|pods|claims
-	Only   []string `json:"only,omitempty"`  // refresh pods: only these names
-	Pod    string   `json:"pod,omitempty"`   // kubelet
-	Ev     string   `json:"ev,omitempty"`    // kubelet: run|ready|unready|fail|succeed|gone|start
-	Field  string   `json:"field,omitempty"` // edit: replicas|slots|pause|tmpl|partition|delete|policy|strategy
-	Int    *int64   `json:"int,omitempty"`
-	Str    *string  `json:"str,omitempty"`
+	Op     string  `json:"op"` // reconcile | refresh | kubelet | edit | worker
+	Faults []Fault `json:"faults,omitempty"`
+	// RefreshOnConflict: the set informer catches up between the attempts of a status write
+	RefreshOnConflict bool     `json:"refresh_on_conflict,omitempty"`
+	What              string   `json:"what,omitempty"`  // refresh: all|set|pods|claims
+	Only              []string `json:"only,omitempty"`  // refresh pods: only these names
+	Pod               string   `json:"pod,omitempty"`   // kubelet
+	Ev                string   `json:"ev,omitempty"`    // kubelet: run|ready|unready|fail|succeed|gone|start
+	Field             string   `json:"field,omitempty"` // edit: replicas|slots|pause|tmpl|partition|delete|policy|strategy
+	Int               *int64   `json:"int,omitempty"`
+	Str               *string  `json:"str,omitempty"`
 }
 
 type Scenario struct {
@@ -96,18 +98,19 @@ type Call struct {
 }
 
 type env struct {
-	sc      *Scenario
-	base    *SetA
-	kube    *kubefake.Clientset
-	as      *asfake.Clientset
-	kinf    kubeinformers.SharedInformerFactory
-	ainf    asinformers.SharedInformerFactory
-	ctrl    *statefulset.StatefulSetController
-	log     []Call
-	n       int
-	faults  []Fault
-	record  bool
-	inReact bool
+	sc                *Scenario
+	base              *SetA
+	kube              *kubefake.Clientset
+	as                *asfake.Clientset
+	kinf              kubeinformers.SharedInformerFactory
+	ainf              asinformers.SharedInformerFactory
+	ctrl              *statefulset.StatefulSetController
+	log               []Call
+	n                 int
+	faults            []Fault
+	record            bool
+	inReact           bool
+	refreshOnConflict bool
 }
 
 var (
@@ -376,6 +379,9 @@ func (e *env) apply(a clienttesting.Action, tracker clienttesting.ObjectTracker)
 			}
 			cur := obj.(*apps.StatefulSet).DeepCopy()
 			if in.ResourceVersion != cur.ResourceVersion {
+				if e.refreshOnConflict {
+					e.setIndexer().Update(cur.DeepCopy())
+				}
 				return true, nil, apierrors.NewConflict(schema.GroupResource{Group: setGVR.Group, Resource: "statefulsets"}, in.Name, fmt.Errorf("resourceVersion %s != %s", in.ResourceVersion, cur.ResourceVersion))
 			}
 			cur.Status = in.Status
@@ -800,7 +806,9 @@ func init() {
 		for _, op := range ops {
 			switch op.Op {
 			case "reconcile":
+				e.refreshOnConflict = op.RefreshOnConflict
 				steps = append(steps, e.reconcile(op.Faults, false))
+				e.refreshOnConflict = false
 			case "worker":
 				steps = append(steps, e.reconcile(op.Faults, true))
 			case "refresh":
